@@ -47,6 +47,16 @@ CHECKS["C18"] = dict(
    note="Trusted: Lean kernel + imported Mathlib modules (axioms audited), the executable model Model/Sss.lean (tied byte-exactly), harness. Assumed: primality of the BN254 group order, the curve library implements a module over that field.",
    technique="Lean 4 + Mathlib proof (Lagrange interpolation, ZMod p) incl. correctness of the executable model + byte-exact differential correspondence")
 
+CHECKS["C10"] = dict(
+   text="Lean 4 theorems `forall input, forall state, outcome != panic` over panic-aware models of the decoders, the whole MPC dispatch path of an open session, the built-in classifiers and the PS request/proof "
+        "shape checks; a census of every partial operation (index, slice, assertion, panic, channel send) in the input-handling functions is regenerated from source on every run and must be covered by the "
+        "accounted-for table (sites_covered, kernel-evaluated). Tie and search: structure-aware fuzzing of every entry point in every session state against the real code under a panic/hang guard, plus the "
+        "model-vs-implementation runs of the codec, dispatcher, receiver and classifier models. Handlers of the synchroniser, message box and transport are covered by the fuzz runs here and by their own models in C07/C15/C16/C17.",
+   design="4/C10",
+   note="Trusted: Lean kernel, the panic-aware models, the site extractor + table, harness. Assumed: stdlib decoders and the curve library are total (exercised, not modelled); tss-lib internals; local preconditions are not peer input. "
+        "Partial: adapters' channel send relies on the protocol loop draining it.",
+   technique="Lean 4 totality proofs over panic-aware models + regenerated site census (kernel-decided) + structure-aware differential fuzzing")
+
 NOT_YET = {}
 
 def main():
